@@ -1,14 +1,18 @@
 from drv_node import NodeSuite
+from drv_cluster import ClusterSuite
 import props.c02 as base
 
 
 class Prop:
     ID = 'C01'
     GEN = ['enums', 'node']
-    MODEL_TARGETS = ['model/Node.vo', 'model/NodeSpec.vo']
+    MODEL_TARGETS = ['model/Node.vo', 'model/NodeSpec.vo', 'model/Cluster.vo', 'model/ClusterSpec.vo']
     TARGETS = ['props/C01.vo']
     PROPS_FILE = 'props/C01.v'
-    SUITES = [NodeSuite(evals={'mismatches': 'mismatches', 'spec_violations': 'spec_violations_c01'})]
+    SUITES = [NodeSuite(evals={'mismatches': 'mismatches', 'spec_violations': 'spec_violations_c01'},
+                        quick=(800, 60), thorough=(15000, 300)),
+              ClusterSuite(evals={'mismatches': 'cmismatches', 'spec_violations': 'spec_violations_c01c'},
+                           quick=(40, 150), thorough=(1500, 500), quiet_rounds=14, convergent_cfg=True)]
     RULE = base.Prop.RULE
     ASSUMPTIONS = base.Prop.ASSUMPTIONS
     TRUSTED = base.Prop.TRUSTED
